@@ -72,6 +72,7 @@ type liveReader struct {
 	done      bool
 	last      int64
 	got       int
+	task      *simrt.Task
 }
 
 type c01 struct {
@@ -92,7 +93,7 @@ func (c *c01) startReader(start int64, committed bool, latest bool) {
 	c.readers = append(c.readers, lr)
 	log := c.log
 	h := c.h1
-	h.s.GoNode(h.node, fmt.Sprintf("reader%d", lr.id), func() {
+	lr.task = h.s.GoNode(h.node, fmt.Sprintf("reader%d", lr.id), func() {
 		defer func() { lr.done = true }()
 		// A committed reader created beyond the HW (or on an empty log) is documented to
 		// "wait for the next message": it resumes at HW+1, which may lie below its start offset.
@@ -399,15 +400,33 @@ func execC01(t *testing.T, prog *hx.Program, dec *simrt.Decider, verbose bool) *
 		}
 		// quiesce: every live reader must have caught up with what it is entitled to
 		if !h.stop {
-			h.s.SetTimeSkips(false) // (the second below is meant for the runnable readers, not for the clock alone)
-			simrt.Sleep(time.Second)
-			for _, lr := range c.readers {
+			h.s.SetTimeSkips(false) // (the seconds below are meant for the runnable readers, not for the clock alone)
+			behind := func(lr *liveReader) (int64, bool) {
 				end := h.next - 1
 				if lr.committed && h.hw < end {
 					end = h.hw
 				}
 				i := h.firstAtOrAfter(lr.start)
-				if i < len(h.model) && h.model[i].off <= end && lr.last != end && !lr.done && !(lr.committed && lr.got == 0) {
+				return end, i < len(h.model) && h.model[i].off <= end && lr.last != end && !lr.done && !(lr.committed && lr.got == 0)
+			}
+			// A reader is stuck when something is readable and it waits (it is not runnable). One second is not a
+			// bound for a *runnable* reader: an uncommitted reader at the end of a full active segment busy-waits in
+			// the real code, the simulator then moves the clock by force, and a second may pass within a handful of
+			// scheduling steps. Runnable laggards get up to 30 rounds.
+			for round := 0; round < 30 && !h.stop; round++ {
+				simrt.Sleep(time.Second)
+				again := false
+				for _, lr := range c.readers {
+					if _, b := behind(lr); b && lr.task != nil && lr.task.Runnable() {
+						again = true
+					}
+				}
+				if !again {
+					break
+				}
+			}
+			for _, lr := range c.readers {
+				if end, b := behind(lr); b {
 					h.fail("C01/live", "C01/live/stuck", "live reader %d (start=%d committed=%v) stopped at %d, log readable to %d", lr.id, lr.start, lr.committed, lr.last, end)
 				}
 			}
